@@ -1691,6 +1691,9 @@ def run(facts, rep, tier):
                         "extension makes the parser consume characters the document model cannot hold (they are lost on formatting), a missing one turns that syntax into escaped text.")
     from . import reader_opts
     reader_opts.rule_reader_options(facts, rep, "C01-R14")
+    rep.rule("C01-R15", "Destinations survive the table-cell writer: Tag::Image / Tag::Link get dest_url from position 0 and title from position 1 of the matched inline.")
+    from . import writer_payload
+    writer_payload.rule_writer_payload(facts, rep, "C01-R15")
 
 class _Only:
     """Forwards only the instances whose key contains a marker."""
